@@ -137,13 +137,17 @@ ChooseRest ==
   /\ pc' = "chosen"
   /\ UNCHANGED <<fam, branch, raw, err, out>>
 
-Call ==
-  /\ pc = "chosen"
-  /\ branch' = BranchOf(FamilyTable[fam].kinds)
-  /\ raw' = IF IsRT(fam) THEN RTResult(fam, args) ELSE RawResult(fam, args)
-  /\ err' = IF IsRT(fam) THEN "none" ELSE ErrOf(fam, args, raw')
+\* the call itself, parameterised so that the trace specification can bind logged arguments to it
+CallWith(f, a) ==
+  /\ branch' = BranchOf(FamilyTable[f].kinds)
+  /\ raw' = IF IsRT(f) THEN RTResult(f, a) ELSE RawResult(f, a)
+  /\ err' = IF IsRT(f) THEN "none" ELSE ErrOf(f, a, raw')
   /\ out' = IF err' = "none" THEN Canon(raw') ELSE Obj("none", <<0>>)
   /\ pc' = "done"
+
+Call ==
+  /\ pc = "chosen"
+  /\ CallWith(fam, args)
   /\ UNCHANGED <<fam, args>>
 
 Next == ChooseRest \/ Call
